@@ -369,11 +369,6 @@ func c37Truncation(text string) (string, bool) {
 	return trimmed, false
 }
 
-func c37CacheKey(text string) string {
-	t, _ := c37Truncation(text)
-	return strings.ToLower(strings.Join(strings.Fields(t), " "))
-}
-
 var c37ProxyDenials = []string{"access denied to topic", "proxy cannot authorize query", "show topics is not allowed by proxy ACL"}
 
 func c37IsProxyDenial(msg string) bool {
@@ -528,7 +523,19 @@ func c37Sessions() [][]c37Text {
 	short := c37Text{Text: "select * from ok tail 1", Label: "select(ok)"}
 	shortCase := c37Text{Text: "SELECT  *  FROM  ok  TAIL 1", Label: "select(ok)-other-case-and-spacing"}
 	secret := c37Text{Text: "select * from secret tail 1", Label: "select(secret)"}
+	// texts whose first 600 bytes survive whitespace normalisation (a long select list) and are shared
+	colPrefix, _ := c37PadColumns([]string{"select *", ""}, 600)
+	colPrefix = strings.TrimRight(colPrefix, " ")
+	colBenign := c37Text{Text: colPrefix + " from ok tail 1", Label: "long-column-list(ok)"}
+	colSecret := c37Text{Text: colPrefix + " from secret tail 1", Label: "same-long-column-list(secret)"}
+	colJoin := c37Text{Text: colPrefix + " from ok join secret within 10m last 1h", Label: "same-long-column-list-join(ok,secret)"}
+	colExplain := c37Text{Text: "explain " + colPrefix + " from ok last 1h", Label: "explain-long-column-list(ok)"}
+	colExplainSecret := c37Text{Text: "explain " + colPrefix + " from secret last 1h", Label: "explain-same-long-column-list(secret)"}
 	return [][]c37Text{
+		{colBenign, colSecret},
+		{colBenign, colJoin},
+		{colSecret, colBenign},
+		{colExplain, colExplainSecret},
 		{benign, evilJoin},
 		{evilJoin, benign},
 		{short, shortCase},
@@ -581,8 +588,11 @@ func c37Judge(up *c37Upstream, c c37Case, obs []c37Obs) (sig string, nontrivial 
 			truncOK := isTrunc && c37RefDecision(c.Allow, c.Deny, trunc)
 			cachedTwin := ""
 			if c.Cache {
+				// any earlier, different, forwarded text of the session may have left the decision that is
+				// reused here; whether the cache is what let this text through is decided below by running
+				// it alone without cache (no model of the cache key is involved)
 				for j := 0; j < i; j++ {
-					if c37CacheKey(c.Queries[j]) == c37CacheKey(q) && c.Queries[j] != q && len(obs[j].Forwarded) > 0 {
+					if c.Queries[j] != q && len(obs[j].Forwarded) > 0 {
 						cachedTwin = c.Queries[j]
 					}
 				}
